@@ -13,10 +13,12 @@ import Generated.Params
   IMPLEMENTATION's outcome, exactly over `Rat`.
 
   Verdict discipline: a `propfail` verdict carries ` +diff` when model and implementation disagree on
-  that case; the labels that known findings match (`rounding-sensitive touch-order region-differs`,
+  that case; the mechanism labels (`rounding-sensitive touch-order region-differs`,
   `caller-memory-written implicit-close`, `nested-member hole-misassigned`,
   `box-inside-outer-ring`) are emitted only when the model reproduces the implementation's outcome
-  AND the documented mechanism is recognised on the case itself.
+  AND the documented mechanism is recognised on the case itself.  Only `box-inside-outer-ring` is still
+  matched by a known finding (C16-box-inside-outer-ring); the other three name repaired defects
+  (2c23ded, b1f15ae, 5037fea) and are plain violations now.
 -/
 namespace Driver.C16
 open Orb Orb.Proto Orb.Core Orb.SmartClip Driver.C07 Driver.C08
